@@ -23,6 +23,8 @@ def parseFaults (s : String) : Option (List Plan) :=
         else if f.startsWith "t" then some (acc.modify c fun p => { p with tempRcpt := some n })
         else if f.startsWith "x" then some (acc.modify c fun p => { p with noop421 := some n })
         else if f.startsWith "s" then some (acc.modify c fun p => { p with slowNoop := some n })
+        -- a late answer to the end of data (tokio runs only): the tokio client has no deadline, nothing changes but the time
+        else if f.startsWith "w" then some acc
         else none
       | _, _ => none
     | _ => none) base
